@@ -100,7 +100,8 @@ def gen(rng, tier):
     n = budget(tier, 500, 30000)
     for i in range(n // 2):
         ops.append("parse " + hx(topic(rng)))
-        ops.append("target " + hx(rng.choice([target(rng), target(rng).rstrip(b"/"), b"/", b"#/", b"", b"/".join([b"x"] * rng.choice([22, 23, 24])) + b"/"])))
+        ops.append("target " + hx(rng.choice([target(rng), target(rng).rstrip(b"/"), b"/", b"#/", b"", b"/".join([b"x"] * rng.choice([22, 23, 24])) + b"/",
+                                              b"a/b#/", b"x#/", b"a/#b/", b"a/b+/", b"+b/", b"a/##/", b"a/b#/#/", b"#b/#/"])))
     contract, sign = rng.getrandbits(32), rng.getrandbits(32)
     specs = ["x:" + hx(rbytes(rng, 16)), "s:%s:%s" % (hx(rbytes(rng, 32)), hx(rbytes(rng, 24))), "h:%s:%s" % (hx(rbytes(rng, 32)), hx(rbytes(rng, 16)))]
     # small scope, exhaustive in every run: every (target, request) pair over {a, b, +, #} up to depth 2
